@@ -1298,3 +1298,231 @@ func runC11Watchers(c *Ctx) {
 		c.Undecided("ComponentStatusChanged invocation", p.Pos(fn.Pos()), "not found")
 	}
 }
+
+// ---------- C13.R12: a deprecated alias never overrides a written sibling ----------
+func runC13Alias(c *Ctx) {
+	p := c.P
+	c.Rule("R12", "GATE", "in every confmap.Unmarshaler, a field that is overwritten from a sibling field of the same configuration under conf.IsSet(<alias key>) – the idiom for honouring a deprecated alias – is overwritten only if its own key is not set: writing the deprecated setting never changes the value of the new setting when that was written too", 1)
+	n := 0
+	for _, pk := range p.Pkgs {
+		if !strings.HasPrefix(pk.PkgPath, modPrefix) || strings.Contains(pk.PkgPath, "/cmd/") {
+			continue
+		}
+		for _, fn := range p.AllSrcFuncs(pk) {
+			if fn.Parent() != nil || fn.Name() != "Unmarshal" || fn.Signature.Recv() == nil || len(fn.Params) != 2 {
+				continue
+			}
+			pt, ok := fn.Params[1].Type().(*types.Pointer)
+			if !ok || !typeIs(pt.Elem(), modPrefix+"/confmap", "Conf") {
+				continue
+			}
+			recv := fn.Params[0]
+			allInstrs(fn, func(in ssa.Instruction) {
+				st, ok := in.(*ssa.Store)
+				if !ok {
+					return
+				}
+				dst, ok := st.Addr.(*ssa.FieldAddr)
+				if !ok || strip(dst.X) != ssa.Value(recv) {
+					return
+				}
+				ld, ok := st.Val.(*ssa.UnOp)
+				if !ok || ld.Op != token.MUL {
+					return
+				}
+				src, ok := ld.X.(*ssa.FieldAddr)
+				if !ok || strip(src.X) != ssa.Value(recv) || src.Field == dst.Field {
+					return
+				}
+				sT := derefStruct(dst.X.Type())
+				key := func(i int) string {
+					tag := sT.Tag(i)
+					j := strings.Index(tag, "mapstructure:\"")
+					if j < 0 {
+						return ""
+					}
+					v := tag[j+len("mapstructure:\""):]
+					if k := strings.Index(v, "\""); k >= 0 {
+						v = v[:k]
+					}
+					return strings.Split(v, ",")[0]
+				}
+				dstKey, srcKey := key(dst.Field), key(src.Field)
+				if dstKey == "" || srcKey == "" {
+					return
+				}
+				// under IsSet(srcKey)?
+				underAlias, ownUnset := false, false
+				for _, g := range guardsOf(st.Block()) {
+					v, br := boolOf(g)
+					call, ok := v.(*ssa.Call)
+					if !ok || calleeOf(call) == nil || calleeOf(call).Name() != "IsSet" || len(call.Call.Args) != 2 {
+						continue
+					}
+					k, isK := constString(call.Call.Args[1])
+					if !isK {
+						continue
+					}
+					if k == srcKey && br {
+						underAlias = true
+					}
+					if k == dstKey && !br {
+						ownUnset = true
+					}
+				}
+				if !underAlias {
+					return
+				}
+				n++
+				c.Check(ownUnset, fmt.Sprintf("alias %q overrides %q in %s only when %q is not written", srcKey, dstKey, fnName(fn), dstKey), p.Pos(st.Pos()), "guarded by !conf.IsSet("+dstKey+")", fmt.Sprintf("the field for %q is overwritten from the deprecated %q whenever that is set, also when %q itself was written: `%s: false, %s: true` loads as false – writing one setting changes the value of a sibling that was also written", dstKey, srcKey, dstKey, srcKey, dstKey))
+			})
+		}
+	}
+	if n == 0 {
+		c.Undecided("deprecated-alias overrides in Unmarshalers", "-", "none found")
+	}
+}
+
+// ---------- C09.R10 / R11 ----------
+func runC09Round3(c *Ctx) {
+	p := c.P
+	gpk := p.ByPath[pkgGraph]
+	if gpk == nil {
+		c.Anchor("service/internal/graph")
+		return
+	}
+	c.Rule("R10", "PROV", "a connector node hands its connector the router built over all downstream pipelines on every path (also for a single downstream pipeline): routing connectors rely on the router interface to select pipelines", 8)
+	n := 0
+	for _, fn := range p.AllSrcFuncs(gpk) {
+		T := recvNamedOfFn(rootFn(fn))
+		if T == nil || T.Obj().Name() != "connectorNode" {
+			continue
+		}
+		for _, ci := range calls(fn, func(ci ssa.CallInstruction) bool {
+			f := calleeOf(ci)
+			return f != nil && strings.HasPrefix(f.Name(), "Create") && strings.Contains(f.Name(), "To") && len(ci.Common().Args) >= 3
+		}) {
+			args := ci.Common().Args
+			next := args[len(args)-1]
+			if _, isIface := next.Type().Underlying().(*types.Interface); !isIface {
+				continue
+			}
+			n++
+			v := strip(next)
+			if mi, ok := v.(*ssa.MakeInterface); ok {
+				v = strip(mi.X)
+			}
+			if ct, ok := v.(*ssa.ChangeInterface); ok {
+				v = strip(ct.X)
+			}
+			call, isCall := v.(*ssa.Call)
+			okR := isCall && calleeOf(call) != nil && calleeOf(call).Pkg() != nil && strings.HasPrefix(calleeOf(call).Pkg().Path(), modPrefix+"/connector") && strings.Contains(calleeOf(call).Name(), "Router")
+			c.Check(okR, fmt.Sprintf("connector node: %s in %s receives the router", calleeOf(ci).Name(), fnName(fn)), p.Pos(ci.Pos()), "argument is connector.New*Router(all downstream pipelines)", "on some path the connector is given a downstream consumer directly instead of the router: a routing connector that needs the router interface fails to build (or panics) for a valid configuration with exactly one downstream pipeline")
+		}
+	}
+	if n == 0 {
+		c.Undecided("connector node Create*To* calls", "-", "none found")
+	}
+
+	c.Rule("R11", "ORD", "while creating the nodes of a pipeline, the loops over its configured receivers, processors and exporters visit every entry: they have no exit other than their own condition (an entry that is a connector is skipped with continue, never with break)", 3)
+	var cn *ssa.Function
+	for _, fn := range p.AllSrcFuncs(gpk) {
+		if fn.Parent() == nil && fn.Name() == "createNodes" {
+			cn = fn
+		}
+	}
+	if cn == nil {
+		c.Anchor("Graph.createNodes")
+		return
+	}
+	nl := 0
+	seen := map[*ssa.BasicBlock]bool{}
+	for _, b := range cn.Blocks {
+		hdr, body := innermostLoop(b)
+		if hdr == nil || seen[hdr] {
+			continue
+		}
+		seen[hdr] = true
+		// loops that index a Receivers / Processors / Exporters list of a pipeline configuration
+		which := ""
+		for bb := range body {
+			for _, in := range bb.Instrs {
+				if ia, ok := in.(*ssa.IndexAddr); ok {
+					if _, path := fieldChain(ia.X); len(path) > 0 {
+						switch path[len(path)-1] {
+						case "Receivers", "Processors", "Exporters":
+							if h2, _ := innermostLoop(ia.Block()); h2 == hdr {
+								which = path[len(path)-1]
+							}
+						}
+					}
+				}
+			}
+		}
+		if which == "" {
+			continue
+		}
+		nl++
+		var exitAt ssa.Instruction
+		for bb := range body {
+			if bb == hdr {
+				continue
+			}
+			for _, s := range bb.Succs {
+				if body[s] {
+					continue
+				}
+				// leaving the loop from inside the body: allowed only into a block that returns an error
+				if r, ok := s.Instrs[len(s.Instrs)-1].(*ssa.Return); ok && len(r.Results) > 0 && !isNilConst(resultsOf(r)[len(resultsOf(r))-1]) {
+					continue
+				}
+				exitAt = bb.Instrs[len(bb.Instrs)-1]
+			}
+		}
+		c.Check(exitAt == nil, fmt.Sprintf("loop over the pipeline's %s in %s visits every entry", which, fnName(cn)), p.Pos(hdr.Instrs[0].Pos()), "only the loop condition ends the loop", "the loop can be left early (break) at "+posOf(p, exitAt)+": entries listed after that point – e.g. a receiver listed behind a connector – are silently ignored, and a valid fan-in configuration is reported as having an orphaned connector")
+	}
+	if nl == 0 {
+		c.Undecided("loops over the pipeline's component lists", p.Pos(cn.Pos()), "none found")
+	}
+}
+
+// ---------- C14.R8 / R9 ----------
+func runC14Round3(c *Ctx) {
+	p := c.P
+	c.Rule("R8", "TAINT", "the client configuration packages put configured (opaque) headers into outgoing gRPC metadata / HTTP headers as plain strings; nothing in those packages reads that metadata back and hands it to a logging or formatting call (zap fields, fmt, errors): request metadata is never rendered", 1)
+	nSrc, bad := 0, 0
+	for _, rel := range []string{"config/configgrpc", "config/confighttp"} {
+		pk := p.Pkg(rel)
+		if pk == nil {
+			continue
+		}
+		for _, fn := range p.AllSrcFuncs(pk) {
+			allInstrs(fn, func(in ssa.Instruction) {
+				call, ok := in.(*ssa.Call)
+				if !ok {
+					return
+				}
+				f := calleeOf(call)
+				if f == nil || f.Pkg() == nil || f.Pkg().Path() != "google.golang.org/grpc/metadata" || !strings.HasPrefix(f.Name(), "FromOutgoingContext") {
+					return
+				}
+				nSrc++
+				for _, r := range *call.Referrers() {
+					ex, ok := r.(*ssa.Extract)
+					if !ok || ex.Index != 0 {
+						continue
+					}
+					if sink, pos := taintSink(ex, fn); sink != "" {
+						bad++
+						c.Bad("outgoing metadata read in "+fnName(fn)+" is not rendered", p.Pos(pos), "the outgoing request metadata – which carries the configured secret headers as plain strings – reaches "+sink+": `authorization: Bearer <secret>` appears in the log")
+					}
+				}
+			})
+		}
+	}
+	if bad == 0 {
+		c.OK("outgoing request metadata is never rendered by the client configuration packages", "-", fmt.Sprintf("%d reads of outgoing metadata", nSrc))
+	}
+	c.Rules[c.cur].Instances++
+	shareRule(c, "C13", runC13, []string{"C13.R6"}, "R9", "PROV", "the configuration handed to extensions is a Conf into which the typed configuration was marshalled – the step that applies redaction (same rule as C13.R6): no path hands out the raw resolved configuration instead", 1)
+}
